@@ -26,6 +26,9 @@ def BOUNDS(tier):
             "outside": "more files/pieces, other piece lengths, metafiles with keys the reference encoder does not emit"}
 
 
+TNAMES = ["100% done", "My%20Album", "%s", "{name}", "a[1]*", "name.torrent", " lead and trail ", "é 中"]
+
+
 def jobs(tier):
     q = tier == "quick"
     out = []
@@ -62,6 +65,12 @@ def jobs(tier):
         out.append(("v2.single.P16384.%s.ref-nolength" % cpath, "job_recheck",
                     dict(prop="C05", version=2, shape="single", P=16384, K=3, dmg=["intact"], cpath=cpath, source="ref",
                          v2_single_length=False)))
+    # torrent names that are special to string formatting, globbing or paths
+    for i, tn in enumerate(TNAMES):
+        for version in ((1, 2, 3) if not q else (1 + i % 3,)):
+            for cpath in ("root", "parent"):
+                out.append(("v%d.flat2.P16384.%s.tname%d" % (version, cpath, i), "job_recheck",
+                            dict(prop="C05", version=version, shape="flat2", P=16384, K=1, dmg=["intact", "intact"], cpath=cpath, source="ref", tname=tn)))
     if q:
         for version in (1, 2, 3):
             for cpath in ("root", "parent"):
@@ -81,6 +90,19 @@ def replay(params, model, notes, workdir, seed):
 def extra(tier, workdir, seed):
     from harness import lemmas
     return {"jobs": [lemmas.lpct_job(12 if tier == "quick" else 24)]}
+
+
+def post(results, tier):
+    """The float expression that produced each judged result gives exactly 100.0 (per expression shape, QF_FP)."""
+    from harness import lemmas
+
+    def model_of(params, leaves, rels):
+        # intact content: every leaf is the payload size; put it all into the first file
+        if not leaves or any(v != leaves[0] for v in leaves):
+            return None
+        n = len(rk.SHAPES[params["shape"]])
+        return dict({"s%d" % i: 0 for i in range(n)}, s0=leaves[0])
+    return lemmas.shape_jobs(results, 12 if tier == "quick" else 24, "C05", model_of)
 
 
 def canaries(tier):
